@@ -4,16 +4,20 @@ From Pygls Require Export Base.JsonVal Model.Registry.
 Open Scope N_scope.
 
 (* ---------- (i) JSON-RPC 2.0: what an object with these members is ---------- *)
-(* request: method, id, no error.  notification: method, no id, no error.
+(* request: method, id, no error.  notification: method, no id.
    response: id, no method, exactly one of result / error (only `error` is looked at).
-   Everything else is not a JSON-RPC 2.0 message. *)
+   JSON-RPC 2.0 has no object with id, method AND error: the only reading under which the peer
+   that sent it is not left waiting is "error response" (an id with an error member settles the
+   request that was sent under that id; nothing is dispatched, nothing is answered) - that row is
+   DEFINED here, it is not left to the implementation.  Likewise method + error without id can only
+   be a notification (there is no id to answer to).  Without id and without method: not a message. *)
 Definition spec_kind (has_id has_method has_error : bool) : option kind :=
-  match has_method, has_error, has_id with
+  match has_id, has_error, has_method with
+  | true, true, _ => Some KErrorResponse
   | true, false, true => Some KRequest
-  | true, false, false => Some KNotification
-  | false, true, true => Some KErrorResponse
-  | false, false, true => Some KResponse
-  | _, _, _ => None
+  | true, false, false => Some KResponse
+  | false, _, true => Some KNotification
+  | false, _, false => None
   end.
 
 (* ---------- (iii) generic objects: which members can be reached by name ---------- *)
